@@ -1,0 +1,10 @@
+// SPDX-License-Identifier: Apache-2.0
+// Copyright Authors of Cilium
+
+//go:build !verif
+
+package statedb
+
+// verifHook is a no-op pause/observation point used only by the external
+// verification harness (build tag "verif").
+func verifHook(point string, db *DB) {}
